@@ -125,6 +125,28 @@ def run(tier: str, driver_ok: bool) -> Result:
             orc = dict(kj, flags=flags | 0x80, keyTag=dns.dnssec.key_id(dkr))
             add("as_revoked", {"op": "as_revoked", "key": kj}, rv, {"ok": orc} if alg != 1 else None)
 
+    # keys steered into the rare corners of the key-tag arithmetic: (ac & 0xFFFF) + (ac >> 16) >= 0x10000 (the RFC folds once
+    # and discards that carry), low 16 bits of the accumulator >= 0xFF80 / == 0xFFFF, accumulator just below / at 2^16 multiples
+    import keys as KK
+
+    def carry(rd: bytes) -> bool:
+        a = KK.tag_accumulator(rd)
+        return (a & 0xFFFF) + (a >> 16) >= 0x10000
+
+    preds = [carry, lambda rd: (KK.tag_accumulator(rd) & 0xFFFF) >= 0xFF80, lambda rd: (KK.tag_accumulator(rd) & 0xFFFF) == 0xFFFF, lambda rd: carry(rd) and ((KK.tag_accumulator(rd) & 0xFFFF) + (KK.tag_accumulator(rd) >> 16)) == 0x10000]
+    for i in range(40 * scale):
+        flags = r.choice([256, 257, 385])
+        alg = r.choice([8, 10, 5])
+        pk = KK.craft_public_key_with(preds[i % len(preds)], flags, alg, r, n_len=r.choice([128, 256, 384, 512]))
+        key = mk_key(alg, flags, pk)
+        kj = key_j(key)
+        dk = dns_key(flags, 3, alg, pk)
+        add("key_tag", {"op": "key_tag", "key": kj}, run_impl(lambda: calculate_key_tag(key), int), {"ok": dns.dnssec.key_id(dk)})
+        if flags != 385:
+            dkr = dns_key(flags | 0x80, 3, alg, pk)
+            add("as_revoked", {"op": "as_revoked", "key": kj}, run_impl(lambda: key.as_revoked(), key_j), {"ok": dict(kj, flags=flags | 0x80, keyTag=dns.dnssec.key_id(dkr))})
+        res.bump("steered_key_tag")
+
     # out-of-range fields are struct errors, never truncated RDATA
     for flags, proto in [(-1, 3), (65536, 3), (256, -1), (256, 256), (70000, 300), (0, 0), (65535, 255)]:
         key = mk_key(8, flags, b"\x03\x01\x00\x01" + b"\xaa" * 64, protocol=proto, validate=False)
